@@ -153,6 +153,9 @@ def mutation(name, arg, rng):
             return acc.m6(key=rng.randbytes(32))
         if kind == "verify_key":
             return acc.m6(key=refpv.hkdf(acc.K, b"Pair-Verify-Encrypt-Salt", b"Pair-Verify-Encrypt-Info"))
+        if kind == "plaintext_unencrypted":
+            # a valid, correctly signed sub-TLV sent in the clear with a junk tag: does not decrypt under the exchange key
+            return [(6, b"\x06"), (5, reftlv.encode(acc.m6_subtlv()) + rng.randbytes(16))]
         if kind == "label_msg05":
             return acc.m6(label=b"PS-Msg05")
         if kind == "label_msg04":
@@ -212,7 +215,7 @@ def adversarial_plan(ctx):
     structural = (
         [("M2:drop_salt", 0), ("M2:drop_key", 0), ("M4:drop_proof", 0), ("M4:drop_proof_keep_junk", 0), ("M4:wrong_code_proof", 0),
          ("M4:zero_proof", 0), ("M4:truncated_proof", 0), ("M6:drop_cipher", 0), ("M6:other_key", 0), ("M6:verify_key", 0),
-         ("M6:label_msg05", 0), ("M6:label_msg04", 0), ("M6:signed_by_other", 0), ("M6:other_key_presented_sig_by_real", 0),
+         ("M6:plaintext_unencrypted", 0), ("M6:label_msg05", 0), ("M6:label_msg04", 0), ("M6:signed_by_other", 0), ("M6:other_key_presented_sig_by_real", 0),
          ("M6:sig_over_other_id", 0), ("M6:id_swapped_after_signing", 0), ("M6:sig_permuted", 0), ("M6:sig_controller_salt", 0),
          ("M6:sig_truncated", 0), ("M6:drop_inner", 1), ("M6:drop_inner", 3), ("M6:drop_inner", 10)]
         + [("M6:inner_truncated", i) for i in range(7)]
